@@ -342,6 +342,10 @@ def cases(quick: bool):
             for oem in (None, "67"):
                 exp = {"phase": "offer", "_codes": cl + (["10E0"] if oem else []) + ["1FC9"], "_src": DHW}
                 yield Case(" I|1FC9", "put_bind", (" I", DHW, cl or None), {"oem_code": oem} if oem else {}, exp, n > 0, "offer" if n else "offer:no-codes")
+                # an offer may also be addressed to itself explicitly, or to the broadcast address (the Orcon remotes' style)
+                for dst, nm in ((DHW, "to-self"), ("63:262142", "to-broadcast")):
+                    kw = {"dst_id": dst, **({"oem_code": oem} if oem else {})}
+                    yield Case(" I|1FC9", "put_bind", (" I", DHW, cl or None), kw, exp, n > 0, f"offer:{nm}" if n else f"offer:{nm}:no-codes")
             for idx in (None, "00", "21", "FF"):
                 if n == 0 and idx == "FF":
                     continue  # a code-less confirm carries 00 or 21 only
